@@ -6,6 +6,7 @@
 -/
 import OidcModel.Generated.TokenEndpoint
 import OidcModel.Generated.TokenIssue
+import OidcModel.Generated.FlowAuthz
 
 namespace Flow
 open Go
@@ -18,6 +19,8 @@ structure St where
   p : Provider := {}
   nextReq : Nat := 1
   nextRT : Nat := 1
+  hintKeys : KeySet := {}              -- the provider's own published signing keys (what an id_token_hint is checked against)
+  hintAlgs : List String := []         -- signature algorithms configured for id_token_hints ([] = the library default)
   deriving Repr, Inhabited
 
 def St.store (s : St) : Store := s.p.store
@@ -141,11 +144,12 @@ def oauthCode (e : String) : String :=
   | "ErrUnsupportedGrantType" => "unsupported_grant_type"
   | "ErrInvalidScope" => "invalid_scope"
   | "ErrInteractionRequired" => "interaction_required"
+  | "ErrLoginRequired" => "login_required"
   | _ => "server_error"
 
 /-- operations of a history -/
 inductive Op
-  | authorize (a : AuthReq)                       -- an accepted authorization request (validated elsewhere: C03)
+  | authorize (a : AuthReq) (hint : FlowHint)     -- an authorization request whose client / redirect URI / scopes were accepted (C03), with its id_token_hint
   | login (id subject : String) (authTime : Int)
   | callback (id code : String)                   -- `code` = the fresh code the provider mints
   | exchange (rt : Router) (req : AccessTokenRequest) (hasAssertion : Bool)
@@ -161,19 +165,33 @@ inductive Out
   | error (e : String)
   deriving Repr
 
+/-- the verifier `Provider.IDTokenHintVerifier` builds: the issuer, the provider's own published keys -/
+def hintVerifier (s : St) : Verifier := { Issuer := s.p.issuer, KeySet := s.hintKeys, SupportedSignAlgs := s.hintAlgs }
+
+/-- `Storage.SaveAuthCode` of the reference storage: the code now maps to this request (and to nothing else) -/
+def saveCode (s : St) (id code : String) : St :=
+  s.setStore { s.store with codes := (s.store.codes.filter (·.1 != code)) ++ [(code, id)] }
+
 def step (now : Int) (s : St) : Op → St × Out
-  | .authorize a =>
-    let id := "ar" ++ toString s.nextReq
-    let a := { a with id := id, done := false, subject := "" }
-    ({ (s.setStore { s.store with authReqs := s.store.authReqs ++ [a] }) with nextReq := s.nextReq + 1 }, .loginPage id)
+  | .authorize a hint =>
+    -- `Authorize` / `LegacyServer.Authorize`: the REGENERATED hint validation decides whether the request is stored at all
+    -- (an invalid hint: login_required) and which subject `Storage.CreateAuthRequest` is handed - the subject of a valid
+    -- OR EXPIRED id_token_hint sits on the pending request before anybody logged in
+    match GenFlow.ValidateAuthReqIDTokenHint now (fun _ => hint.token) hint.raw (hintVerifier s) with
+    | .error e => (s, .error e)
+    | .ok sub =>
+      let id := "ar" ++ toString s.nextReq
+      let a := { a with id := id, done := false, subject := sub }
+      ({ (s.setStore { s.store with authReqs := s.store.authReqs ++ [a] }) with nextReq := s.nextReq + 1 }, .loginPage id)
   | .login id subject authTime =>
     (s.setStore { s.store with authReqs := s.store.authReqs.map fun a => if a.id == id then { a with done := true, subject := subject, authTime := authTime } else a }, .done)
   | .callback id code =>
-    match s.store.authReqs.find? (·.id == id) with
-    | none => (s, .error "ErrInvalidRequest")
-    | some a =>
-      if !a.done then (s, .error "ErrInteractionRequired")
-      else (s.setStore { s.store with codes := (s.store.codes.filter (·.1 != code)) ++ [(code, id)] }, .code code)
+    -- the REGENERATED `AuthorizeCallback` (the response-writing call on the path taken): a code only via `AuthResponse`
+    match GenFlow.AuthorizeCallback now { id := id } s.p with
+    | [c] =>
+      if c.fn == "AuthResponse" then (saveCode s id code, .code code)
+      else (s, .error (c.errs.head?.getD "ErrInvalidRequest"))
+    | _ => (s, .error "ErrServerError")
   | .exchange rt req ha =>
     match codeExchange now rt s.p req ha with
     | .error e => (s, .error e)
